@@ -19,6 +19,8 @@ func checkC07(w *World, r *Result) {
 		Undecided("SORT-PAR: fewer sort.Slice calls than confirmed by hand")
 	}
 	n1 := runORD1(w, r, nil)
+	runORD6(w, r, nil)
+	unusedPureRule(w, r, nil)
 	n2 := runORD2(w, r)
 	n3 := runORD3(w, r)
 	n4 := runORD4(w, r)
